@@ -90,7 +90,9 @@ def check_rows(region, L, circular, stats=None):
                     fails.append(("row-overlap", f"height {height}: [{a[0]},{a[1]}] and [{b[0]},{b[1]}]"))
     # completeness per kind
     expected = {
-        "protocluster": [(R.bases(p.location), R.bases(p.core_location)) for p in region.get_unique_protoclusters()],
+        # (each protocluster object once, whatever number of candidates lists it - not taken from the region's own helper)
+        "protocluster": [(R.bases(p.location), R.bases(p.core_location))
+                         for p in {id(p): p for c in region.candidate_clusters for p in c.protoclusters}.values()],
         "candidatecluster": [(R.bases(c.location), None) for c in region.candidate_clusters
                              if region.subregions or c.kind != c.kinds.SINGLE],
         "subregion": [(R.bases(s.location), None) for s in region.subregions],
@@ -241,11 +243,13 @@ def menu(nslots, circular, reduced):
 
 
 def shards(tier):
-    plans = [(6, False, 3, False), (6, True, 3, False), (6, True, 4, True), (6, True, 4, "tight"), (6, True, 2, "asym")]
+    plans = [(6, False, 3, False), (6, True, 3, False), (6, True, 4, True), (6, True, 4, "tight"), (6, True, 2, "asym"),
+             (6, True, 3, "twins"), (6, False, 3, "twins")]
     if tier == "thorough":
         plans = [(6, False, 4, False), (6, True, 4, False), (7, True, 3, False), (7, True, 4, True),
                  (6, True, 4, "tight"), (6, False, 4, "tight"), (7, True, 4, "tight"), (8, True, 4, "tight"),
-                 (6, True, 3, "asym"), (7, True, 2, "asym"), (8, True, 2, "asym")]
+                 (6, True, 3, "asym"), (7, True, 2, "asym"), (8, True, 2, "asym"), (6, True, 3, "twins"), (6, False, 3, "twins"),
+                 (8, True, 3, "twins")]
     return [[nslots, circ, k, reduced, chunk] for nslots, circ, k, reduced in plans for chunk in range(_chunks(k, reduced))]
 
 
@@ -256,10 +260,19 @@ def _chunks(k, reduced):
 def run_shard(shard):
     nslots, circ, k, reduced, chunk = shard
     res = Result()
-    items = menu(nslots, circ, reduced)
+    if reduced == "twins":
+        # the same protocluster twice (e.g. sideloaded twice) next to a further area: the twins are equal in every respect and both
+        # belong to the same candidates
+        base = c06.area_menu(nslots, circ, "basic")
+        protos = [a for a in base if a[0] == "P"]
+        combos = [(p, p, q) for p in protos for q in base if q != p]
+    else:
+        items = menu(nslots, circ, reduced)
+        combos = (combo for size in (range(1, k + 1) if reduced is not True else (k,)) for combo in itertools.combinations(items, size))
     index = 0
-    for size in (range(1, k + 1) if reduced is not True else (k,)):
-        for combo in itertools.combinations(items, size):
+    for _once in (1,):
+        for combo in combos:
+            size = len(combo)
             index += 1
             if index % _chunks(k, reduced) != chunk:
                 continue
